@@ -14,6 +14,7 @@ import (
 	"encoding/json"
 	"encoding/pem"
 	"fmt"
+	"io"
 	"math/big"
 	"os"
 	"strings"
@@ -39,7 +40,14 @@ type ident struct {
 
 func (i *ident) key() *ecdsa.PrivateKey { return i.pair.Signer.(*ecdsa.PrivateKey) }
 
+type altID struct {
+	id     uint16
+	cert   []byte
+	signer crypto.Signer
+}
+
 type env struct {
+	alt   map[string]*altID // identities with other key types, registered under dom1 as nodes 4 (rsa), 5 (ed25519), 6 (p384)
 	pki   *netlib.PKI
 	ids   []*ident // registered: 1 (dom1), 2 (dom1), 3 (dom2)
 	unreg *ident
@@ -66,6 +74,12 @@ func newEnv() *env {
 	}
 	up, _ := pki.CA.NewClientCertKeyPair()
 	e.unreg = &ident{id: 99, domain: "dom1", pair: up}
+	e.alt = map[string]*altID{}
+	for i, kt := range []string{"rsa", "ed25519", "p384"} {
+		cert, signer := altCert(e, kt)
+		e.alt[kt] = &altID{id: uint16(4 + i), cert: cert, signer: signer}
+		p2id[netlib.LookupKey("dom1", cert)] = uint16(4 + i)
+	}
 	e.lis = netlib.NewListener(pki.ServerConfig())
 	in, stop := comm.ServiceConnections(e.lis, p2id, world.NopLogger{})
 	e.stop = stop
@@ -110,7 +124,18 @@ type variant struct {
 	build func(e *env, binding []byte, otherBinding []byte, otherFrame []byte) (wire []byte, okID uint16, okDomain string)
 }
 
+var altSigners = map[string]crypto.Signer{}
+
 func altCert(e *env, kind string) ([]byte, crypto.Signer) {
+	signer := altSigners[kind]
+	if signer == nil {
+		signer = newAltSigner(kind)
+		altSigners[kind] = signer
+	}
+	return certFor(e, kind, signer), signer
+}
+
+func newAltSigner(kind string) crypto.Signer {
 	var signer crypto.Signer
 	switch kind {
 	case "p384":
@@ -123,6 +148,10 @@ func altCert(e *env, kind string) ([]byte, crypto.Signer) {
 		_, k, _ := ed25519.GenerateKey(rand.Reader)
 		signer = k
 	}
+	return signer
+}
+
+func certFor(e *env, kind string, signer crypto.Signer) []byte {
 	caBlock, _ := pem.Decode(e.pki.CA.CertBytes())
 	caCert, _ := x509.ParseCertificate(caBlock.Bytes)
 	tpl := &x509.Certificate{SerialNumber: big.NewInt(time.Now().UnixNano()), Subject: pkix.Name{CommonName: kind}, NotBefore: now().Add(-time.Hour), NotAfter: now().Add(time.Hour),
@@ -131,7 +160,7 @@ func altCert(e *env, kind string) ([]byte, crypto.Signer) {
 	if err != nil {
 		panic(err)
 	}
-	return pem.EncodeToMemory(&pem.Block{Type: "CERTIFICATE", Bytes: der}), signer
+	return pem.EncodeToMemory(&pem.Block{Type: "CERTIFICATE", Bytes: der})
 }
 
 func variants(thorough bool) []variant {
@@ -285,6 +314,37 @@ func variants(thorough bool) []variant {
 			}
 			h.Signature = sig
 			return frame(h), 0, ""
+		})
+	}
+	// identities with other key types that ARE registered: only a signature by their own key counts
+	for _, kt := range []string{"rsa", "ed25519", "p384"} {
+		kt := kt
+		add("keytype", "registered-"+kt+"-identity-signed-by-unrelated-key", func(e *env, b, ob, of []byte) ([]byte, uint16, string) {
+			h := comm.Handshake{Domain: "dom1", TLSBinding: b, Identity: e.alt[kt].cert, Timestamp: now().Unix()}
+			netlib.SignHandshake(&h, e.unreg.key())
+			return frame(h), 0, ""
+		})
+		add("keytype", "registered-"+kt+"-identity-garbage-signature", func(e *env, b, ob, of []byte) ([]byte, uint16, string) {
+			h := comm.Handshake{Domain: "dom1", TLSBinding: b, Identity: e.alt[kt].cert, Timestamp: now().Unix(), Signature: []byte{0x30, 0x06, 0x02, 0x01, 0x01, 0x02, 0x01, 0x01}}
+			return frame(h), 0, ""
+		})
+		add("keytype", "registered-"+kt+"-identity-own-signature", func(e *env, b, ob, of []byte) ([]byte, uint16, string) {
+			h := comm.Handshake{Domain: "dom1", TLSBinding: b, Identity: e.alt[kt].cert, Timestamp: now().Unix()}
+			h.Signature = nil
+			d := sha256sum(h.Bytes())
+			var opts crypto.SignerOpts = crypto.SHA256
+			msg := d
+			if kt == "ed25519" {
+				opts = crypto.Hash(0)
+				msg = h.Bytes()
+			}
+			sig, err := e.alt[kt].signer.Sign(rand.Reader, msg, opts)
+			if err != nil {
+				panic(err)
+			}
+			h.Signature = sig
+			// attributed to its own registration, or (unsupported key type) not at all
+			return frame(h), e.alt[kt].id, "dom1"
 		})
 	}
 	add("encoding", "identity-not-pem", func(e *env, b, ob, of []byte) ([]byte, uint16, string) {
@@ -460,6 +520,7 @@ func gen(c *harness.C) []harness.Case {
 		v := v
 		cases = append(cases, harness.Case{ID: "variant/" + v.name, Run: func(c *harness.C) { one(c, v, -1) }})
 	}
+	cases = append(cases, libraryReplayCase())
 	// truncations of the valid handshake frame: every length
 	valid := byName["valid"]
 	step := 1
@@ -504,6 +565,106 @@ func gen(c *harness.C) []harness.Case {
 		c.Outcome("catalogue")
 	}})
 	return cases
+}
+
+// libraryReplayCase: the library's own sender (party 1) connects to a misbehaving registered node,
+// which records the handshake it receives and replays it on a connection of its own to the victim.
+func libraryReplayCase() harness.Case {
+	return harness.Case{ID: "library-sender/replayed-handshake", Run: func(c *harness.C) {
+		if !dialSeam {
+			c.Note("c16-dial-seam", "tls.Dial could not be redirected on this tree: library-sender replay case skipped")
+			return
+		}
+		c.Exec("[replay] library-sender handshake recorded by a malicious node and replayed to the victim")
+		var got []comm.InMsg
+		recorded := false
+		rec := c.Bubble(func() {
+			e := newEnv()
+			// the malicious node's listener: terminates TLS and records what the sender writes
+			mal := netlib.NewListener(e.pki.ServerConfig())
+			var recordedHS []byte
+			done := make(chan struct{})
+			go func() {
+				conn, err := mal.Accept()
+				if err != nil {
+					return
+				}
+				lenb := make([]byte, 2)
+				if _, err := io.ReadFull(conn, lenb); err != nil {
+					close(done)
+					return
+				}
+				body := make([]byte, int(lenb[0])|int(lenb[1])<<8)
+				if _, err := io.ReadFull(conn, body); err != nil {
+					close(done)
+					return
+				}
+				recordedHS = append(lenb, body...)
+				close(done)
+			}()
+			never := make(chan struct{})
+			down := false
+			installDial(func(network, addr string, cfg *tls.Config) (*tls.Conn, error) {
+				if down {
+					<-never
+				}
+				raw, err := mal.DialRaw("to-malicious")
+				if err != nil {
+					return nil, err
+				}
+				cc := cfg.Clone()
+				cc.ServerName = "mem"
+				conn := tls.Client(raw, cc)
+				if err := conn.Handshake(); err != nil {
+					return nil, err
+				}
+				return conn, nil
+			})
+			id := e.ids[0]
+			rp := comm.NewSocketRemoteParty(comm.PartyConnectionConfig{
+				AuthFunc: func(binding []byte) comm.Handshake {
+					// (the sender overwrites Domain with its configured domain after this function
+					// returns, so the function has to sign that very domain)
+					h := comm.Handshake{Domain: id.domain, TLSBinding: binding, Identity: id.pair.Cert, Timestamp: now().Unix()}
+					netlib.SignHandshake(&h, id.key())
+					return h
+				}, Domain: id.domain, Id: 3, Endpoint: "malicious", TlsCAs: e.pki.Pool}, world.NopLogger{})
+			comm.SocketRemoteParties{3: rp}.Send(2, topic32("t"), []byte("hello malicious node"), 3)
+			synctest.Wait()
+			<-done
+			if recordedHS != nil {
+				recorded = true
+				// replay on an own connection to the victim
+				ac, _ := e.connect("replayer")
+				ac.Write(recordedHS)
+				ac.Write(netlib.Frame(2, topic32("attack-topic"), []byte("attacker-payload")))
+				synctest.Wait()
+				time.Sleep(2 * time.Second)
+				synctest.Wait()
+				ac.Close()
+			}
+			got = e.col.Snapshot()
+			down = true
+			mal.Close()
+			e.stop()
+			time.Sleep(time.Second)
+		})
+		if rec != nil && !harness.IsLeakPanic(rec) {
+			panic(rec)
+		}
+		c.Add("executions", 1)
+		c.Add("evaluations", 1)
+		if !recorded {
+			c.Violation("control", "c16-library-sender-handshake-not-recorded", "the library's sender did not deliver a handshake to the recording node", nil)
+			return
+		}
+		for _, m := range got {
+			if bytes.Equal(m.Data, []byte("attacker-payload")) {
+				c.Violation("no-attribution-without-proof", "c16-attributed:replayed-library-handshake", fmt.Sprintf("a handshake the library's sender produced on its connection to another node was replayed on a different connection and the message was attributed to node %d", m.From), nil)
+			}
+		}
+		c.Outcome("library-replay")
+	}}
 }
 
 func judgeCatalogue(c *harness.C, i int, got []comm.InMsg, honestOK bool) {
